@@ -284,14 +284,14 @@ var c42Texts = []string{
 func init() {
 	eng.Register(&eng.Check{
 		ID: "C42", Level: "exploration",
-		Rule: "reference ranges: every file set {index.d2 = ≤2 (quick) / ≤3 (thorough) statements over a 22-statement fragment (nested keys, case variants, quoted keys, connections with indexes, re-declarations, one spread and one keyed import of x.d2, a layer and a scenario)} × every object key of every board of the compiled set (GetRefRanges): each returned range lies in its file and its text parses to key syntax naming the key's last segment; for plain index files every declaration found by an independent AST walk is covered by a returned range. Board at position: every (line, column) of 7 multi-board texts and of every text of ≤2 board-fragment statements, compared with an independent innermost-board walk (positions on a brace are skipped). Completion: GetCompletionItems at every position (plus one past the end) of every token string of ≤2 (quick) / ≤3 (thorough) tokens over Σ_t, the board texts and their single-token neighbours must not crash",
+		Rule: "reference ranges: every file set {index.d2 = ≤3 statements (both tiers) over a 22-statement fragment (nested keys, case variants, quoted keys, connections with indexes, re-declarations, one spread and one keyed import of x.d2, a layer and a scenario)} × every object key of every board of the compiled set (GetRefRanges): each returned range lies in its file and its text parses to key syntax naming the key's last segment; for plain index files every declaration found by an independent AST walk is covered by a returned range. Board at position: every (line, column) of 7 multi-board texts and of every text of ≤2 board-fragment statements, compared with an independent innermost-board walk (positions on a brace are skipped). Completion: GetCompletionItems at every position (plus one past the end) of every token string of ≤2 (quick) / ≤3 (thorough) tokens over Σ_t, the board texts and their single-token neighbours must not crash",
 		Assumptions: []string{"positions exactly on the opening or closing brace of a board block are not compared (the statement does not say which side they belong to)", "the completeness clause is checked for index files without globs, underscores, imports, boards and nulls"},
 		Oracles: map[string]eng.Oracle{"refs": c42Refs, "board": c42Board, "complete": c42Complete},
 		Run: func(w *eng.W) {
 			stmts := []string{"a", "a.b", "A.B: x", "a: {b: {c}}", "\"a\".b", "a -> b", "a -> b: l", "(a -> b)[0].style.stroke: red", "a.b -> a.c", "c: {d -> e}", "b", "a.style.fill: red", "a.b.shape: circle",
 				"...@x", "k: @x", "k.p: z", "p.q", "layers: {l: {m; a}}", "scenarios: {s: {a.n}}", "a: null", "*.style.opacity: 0.5", "c: {_.f}"}
 			x := "p: {q}\np -> r\n"
-			for k := 1; k <= w.Pick(2, 3); k++ {
+			for k := 1; k <= 3; k++ {
 				k := k
 				w.Phase(fmt.Sprintf("ref-ranges-stmts<=%d", k), func() {
 					Seqs(stmts, k, func(s []string) {
